@@ -68,7 +68,7 @@ class Ctx:
             yield from self._preorder(ch)
 
     # -- obligations -----------------------------------------------------------------------
-    def oblige(self, state, goal, kind, node=None, text=''):
+    def oblige(self, state, goal, kind, node=None, text='', assume=True):
         if self.spec_mode:
             return
         if z3.is_true(goal):
@@ -84,6 +84,8 @@ class Ctx:
         self.obligations.append(Obligation(oid, self.qualname, lineno, kind, text,
                                            list(state.pc) + list(self.guards), goal, src))
         # continue under the assumption that it held
+        if not assume:
+            return
         if not self.guards:
             state.assume(goal)
         else:
